@@ -391,3 +391,20 @@ Proof.
     change NLA_HDRLEN with 4 in D2. change (136 - 4) with 132 in D2.
     rewrite D2. reflexivity.
 Qed.
+
+(** non-vacuity: a concrete argument tuple inside [wf_sa], and the round trip recomputed on it *)
+Definition ex_args : sa_args :=
+  mk_sa_args (mknet (mkip 4 [10; 0; 0; 0]%N) 24) (mknet (mkip 4 [10; 0; 1; 0]%N) 24) 0 443 [1; 2; 3; 4]%N 6 50 1
+             (mkip 6 [32; 1; 13; 184; 0; 0; 0; 0; 0; 0; 0; 0; 0; 0; 0; 1]%N)
+             (mkip 6 [32; 1; 13; 184; 0; 0; 0; 0; 0; 0; 0; 0; 0; 0; 0; 2]%N)
+             [99; 98; 99; 40; 97; 101; 115; 41]%N (repeat 7%N 16) [104; 109; 97; 99; 40; 109; 100; 53; 41]%N (repeat 9%N 16) 300.
+
+Example wf_sa_example : wf_sa ex_args /\
+  kernel_decode_newsa (message_bytes (emit_newsa ex_args) 5 6) = Some (intended_newsa ex_args 5 6).
+Proof.
+  split.
+  - unfold wf_sa, wf_ip, wf_u8, wf_port, wf_name, wf_bytes, is_byte. cbn.
+    repeat split; try lia; try (left; split; [reflexivity|reflexivity]); try (right; split; reflexivity);
+      try (intros _; repeat split; try lia); repeat (constructor; try lia; try discriminate).
+  - vm_compute. reflexivity.
+Qed.
